@@ -117,10 +117,12 @@ class Frame:
 
 
 class FuncRef:
-    def __init__(self, fi: FuncInfo, self_obj=None, cls_obj=None):
+    def __init__(self, fi: FuncInfo, self_obj=None, cls_obj=None, closure=None, raw=False):
         self.fi = fi
         self.self_obj = self_obj
         self.cls_obj = cls_obj
+        self.closure = closure      # enclosing frame of a nested function
+        self.raw = raw              # call the undecorated function (used by decorator hooks)
 
     def __repr__(self):
         return f"<FuncRef {self.fi.qualname}>"
@@ -213,7 +215,22 @@ _BUILTIN_EXC = {
     "NotImplementedError": ["NotImplementedError", "RuntimeError", "Exception", "BaseException"],
     "RuntimeError": ["RuntimeError", "Exception", "BaseException"],
     "OSError": ["OSError", "Exception", "BaseException"],
+    "Error": ["Error", "Exception", "BaseException"],
+    "DatabaseError": ["DatabaseError", "Error", "Exception", "BaseException"],
+    "IntegrityError": ["IntegrityError", "DatabaseError", "Error", "Exception", "BaseException"],
+    "OperationalError": ["OperationalError", "DatabaseError", "Error", "Exception", "BaseException"],
+    "ProgrammingError": ["ProgrammingError", "DatabaseError", "Error", "Exception", "BaseException"],
+    "InterfaceError": ["InterfaceError", "Error", "Exception", "BaseException"],
+    "ImportError": ["ImportError", "Exception", "BaseException"],
 }
+
+
+class ExcClassRef:
+    def __init__(self, names):
+        self.names = list(names)
+
+    def __deepcopy__(self, memo):
+        return self
 
 
 class Raised(Exception):
@@ -279,6 +296,8 @@ class Interp:
         self.positive = lambda atom: True   # atoms are positive quantities unless told otherwise
         self._const_cache = {}
         self.apps = {}          # opaque application atom -> (tag, args, kwargs)
+        self.decorator_hooks = {}   # decorator text -> fn(interp, fi, args, kwargs, node)
+        self.const_overrides = {}   # (module name, constant name) -> abstract value
         self._install_builtins()
         self.reset([])
 
@@ -363,6 +382,9 @@ class Interp:
         if k == "ext":
             return ExtRef(r[1])
         if k == "const":
+            for (mn, cn), v in self.const_overrides.items():
+                if mn == r[1].name and r[1].assigns.get(cn) is r[2]:
+                    return v
             return self.const_value(r[1], r[2])
         raise AssertionError(r)
 
@@ -418,8 +440,16 @@ class Interp:
                              f"{fi.short}() got an unexpected keyword argument '{next(iter(kwargs))}'")
         return env
 
-    def call_func(self, fi: FuncInfo, args, kwargs, node=None, self_obj=None):
+    def call_func(self, fi: FuncInfo, args, kwargs, node=None, self_obj=None, closure=None, raw=False):
+        if not raw:
+            for d in fi.decorators:
+                if d in self.decorator_hooks:
+                    return self.decorator_hooks[d](self, fi, list(args), dict(kwargs), node)
         env = self.bind(fi, args, kwargs, node, self_obj)
+        if closure:
+            for k_, v_ in closure.items():
+                if k_ not in env:
+                    env[k_] = v_
         if fi.qualname in self.watch:
             self.calls.append((fi.qualname, dict(env), getattr(node, "lineno", None),
                                self.stack[-1].short if self.stack else None))
@@ -468,14 +498,17 @@ class Interp:
                 return self.call_func(fi, args, kwargs, node, self_obj=fv.cls_obj or ClassRef(fi.cls))
             if fi.is_staticmethod:
                 return self.call_func(fi, args, kwargs, node)
-            return self.call_func(fi, args, kwargs, node, self_obj=fv.self_obj)
+            return self.call_func(fi, args, kwargs, node, self_obj=fv.self_obj, closure=fv.closure, raw=fv.raw)
+        if isinstance(fv, ExcClassRef):
+            return ExcVal(fv.names, node=node, msg=args[0] if args and isinstance(args[0], str) else "",
+                          func=self.stack[-1] if self.stack else None)
         if isinstance(fv, ClassRef):
             return self.instantiate(fv.ci, args, kwargs, node)
         if isinstance(fv, ExtRef):
             if fv.dotted in self.ext:
                 return self.ext[fv.dotted](self, args, kwargs, node)
             short = fv.dotted.split(".")[-1]
-            if fv.dotted.startswith("builtins.") and short in _BUILTIN_EXC:
+            if (fv.dotted.startswith("builtins.") or fv.dotted.startswith("sqlite3.")) and short in _BUILTIN_EXC:
                 return ExcVal(_BUILTIN_EXC[short], node=node, msg=args[0] if args and isinstance(args[0], str) else "",
                               func=self.stack[-1] if self.stack else None)
             self.err(node, f"no summary for external callable '{fv.dotted}'")
@@ -848,6 +881,8 @@ class Interp:
         if isinstance(v, ExcVal):
             if name == "args":
                 return (v.msg,)
+        if isinstance(v, FuncRef) and name in ("__name__", "__qualname__"):
+            return v.fi.name
         if isinstance(v, (str, dict, list, tuple, Num)):
             raise self.fault("AttributeError", node, f"'{kind}' object has no attribute '{name}'")
         self.err(node, f"no summary for attribute '{name}' of {kind}")
@@ -1308,7 +1343,7 @@ class Interp:
         v = self.eval(st.exc, env)
         if isinstance(v, ClassRef):
             v = self.instantiate(v.ci, [], {}, st)
-        if isinstance(v, ExtRef):
+        if isinstance(v, (ExtRef, ExcClassRef)):
             v = self.call_value(v, [], {}, st)
         if not isinstance(v, ExcVal):
             self.err(st, f"raise of non-exception {v!r}")
@@ -1426,6 +1461,10 @@ class Interp:
                     self.err(t, "del on non-dict")
             else:
                 self.err(t, "del target")
+
+    def s_FunctionDef(self, st, env):
+        fi = FuncInfo(self.model.module(env["__module__"]), st, None)
+        env[st.name] = FuncRef(fi, closure=env)
 
     def s_Global(self, st, env):
         env.setdefault("__globals__", set()).update(st.names)
@@ -1568,6 +1607,8 @@ class Interp:
             v = a[0]
             if isinstance(v, Obj) and v.cls is not None:
                 return ClassRef(v.cls)
+            if isinstance(v, ExcVal):
+                return ExcClassRef(v.names)
             return Opaque(f"type({I.kind_of(v)})")
 
         E["builtins.len"] = b_len
